@@ -605,7 +605,11 @@ _VDB = {}
 
 def _verifier_db():
     if 'db' not in _VDB:
-        _VDB['db'] = loop.make_verifier_db()
+        r = loop.DetRandom(12345).install()      # the same verifier in every worker process, and the
+        try:                                      # case's own random stream is left untouched
+            _VDB['db'] = loop.make_verifier_db()
+        finally:
+            r.uninstall()
     return _VDB['db']
 
 
